@@ -46,8 +46,11 @@ Strict == [allDomains |-> TRUE,   \* a placed pod blocks / occupies EVERY domain
            preferTaint |-> FALSE, \* nodeTaintsPolicy Honor also excludes nodes with an untolerated PreferNoSchedule taint
            fpod       |-> <<>>,   \* <<q>>: decide node inclusion with the node selector / required terms / tolerations of pod q
            since      |-> 0,      \* only the pods committed after position `since` of this pass are counted
-           hostClaims |-> TRUE,   \* hostname spread: the NodeClaims opened so far are eligible domains (FALSE in the order-free end-state form:
-                                  \* which of them existed when a pod was admitted is unknown, and a later one lowers the minimum retroactively)
+           endForm    |-> FALSE,  \* TRUE in the order-free end-state form only: what the world looked like when a pod was admitted is
+                                  \* unknown, so everything that may have changed since is read in the pod's favour - NodeClaims are no
+                                  \* hostname domains, a NodeClaim certainly takes part only if the node filter is trivial and possibly
+                                  \* always, a matching pod that does not carry the constraint may have been in any domain, and the
+                                  \* universe is what the existing nodes and the pods running before the pass establish
            undefSkips |-> FALSE]  \* a pod committed to a NodeClaim that left a key of the node filter undefined at that moment is not counted
 
 Fld(r, f, d) == IF f \in DOMAIN r THEN r[f] ELSE d
@@ -138,8 +141,9 @@ Inc(o, cfg, p0, s, T) ==
               IN [lo |-> aff /\ t1 /\ t2, hi |-> aff /\ (t1 \/ t2)]
     ELSE LET Ls == ClaimLabellings(cfg, T, NodeConstraintKeys(p))
              tt == s.taintPol # "Honor" \/ TaintsOK(o, p.tol, PoolTaints(cfg, T.pool))
-         IN [lo |-> tt /\ (s.affPol = "Ignore" \/ \A L \in Ls : NodeAffHolds(cfg, p, L)),
-             hi |-> tt /\ (s.affPol = "Ignore" \/ \E L \in Ls : NodeAffHolds(cfg, p, L))]
+         IN IF o.endForm THEN [lo |-> tt /\ (s.affPol = "Ignore" \/ NodeConstraintKeys(p) = {}), hi |-> tt]
+            ELSE [lo |-> tt /\ (s.affPol = "Ignore" \/ \A L \in Ls : NodeAffHolds(cfg, p, L)),
+                  hi |-> tt /\ (s.affPol = "Ignore" \/ \E L \in Ls : NodeAffHolds(cfg, p, L))]
 
 ----------------------------------------------------------------------------
 (* the world: W = [cfg, batch (keys of the pods this pass schedules), plc (sequence of [pod, tid] in commit order),   *)
@@ -202,7 +206,7 @@ ULow(o, W, p, s) ==
     UNION {IF ~n.marked /\ ~n.deleting /\ n.stage # "claimonly" /\ Inc(o, cfg, p, s, NodeT(n.name)).lo THEN TDom(cfg, NodeT(n.name), s.key) ELSE {}
            : n \in Range(cfg.nodes)}
     \cup UNION {LET D == TDom(cfg, Loc(W, q), s.key) IN IF Cardinality(D) = 1 THEN D ELSE {}
-                : q \in {r \in Others(o, W, p) : SpreadMatches(o, s, p, r) /\ (r \in Running(o, W) \/ Carries(r, s, p))
+                : q \in {r \in Others(o, W, p) : SpreadMatches(o, s, p, r) /\ (r \in Running(o, W) \/ (~o.endForm /\ Carries(r, s, p)))
                                                      /\ Inc(o, cfg, p, s, Loc(W, r)).lo}}
 
 (* G_C02_Spread: for every domain d the location may end up in: (pods certainly in d that count) + (1 if p matches its  *)
@@ -225,12 +229,12 @@ SpreadParts(o, W, p, x, s, UL) ==
         \* collapsed one (minimum side); a matching batch pod that does not carry the constraint is ignored on the count
         \* side and possibly anywhere on the minimum side
         lo(d) == Cardinality({q \in sure : d \in dom[q] /\ inc[q].lo})
-        hi(d) == Cardinality({q \in P : inc[q].hi /\ (IF q \in sure THEN dom[q] = {d} ELSE d \in dom[q])})
+        hi(d) == Cardinality({q \in P : inc[q].hi /\ (IF q \in sure THEN dom[q] = {d} ELSE o.endForm \/ d \in dom[q])})
         Dx == TDom(cfg, x, k)
         \* hostname: every domain is one node; the eligible ones are the nodes that certainly take part (Kubernetes has no
         \* notion of "a node that could be created": Karpenter assuming a minimum of 0 is stricter and accepted)
         HostD == {n.name : n \in {m \in Range(cfg.nodes) : m.stage # "claimonly" /\ ~m.marked /\ ~m.deleting /\ Inc(o, cfg, p, s, NodeT(m.name)).lo}}
-                 \cup (IF o.hostClaims THEN {id \in DOMAIN W.tg : W.tg[id].kind = "claim" /\ Inc(o, cfg, p, s, W.tg[id]).lo} ELSE {})
+                 \cup (IF o.endForm THEN {} ELSE {id \in DOMAIN W.tg : W.tg[id].kind = "claim" /\ Inc(o, cfg, p, s, W.tg[id]).lo})
         D == (IF k = "host" THEN HostD
               ELSE {e \in U : (o.policies /\ o.ignoreWidens /\ s.affPol = "Ignore") \/ AllowsKey(o, cfg, p, k, e)}) \cup Dx
         self == IF SpreadMatches(o, s, p, p) THEN 1 ELSE 0
@@ -275,7 +279,7 @@ EndSpreadOK(o, W, p, s, Uof(_, _)) ==
         Dp == TDom(cfg, Loc(W, p), s.key)
         C(d) == {q \in PlacedPods(W) : Carries(q, s, p) /\ d \in TDom(cfg, Loc(W, q), s.key)}
     IN Dp # {} /\ \A d \in Dp : \E q \in C(d) : \E i \in CarriesIdx(q, s, p) :
-                      SpreadParts([o EXCEPT !.hostClaims = FALSE], Without(W, q), q, Loc(W, q), q.spread[i], Uof(q, q.spread[i])).okd[d]
+                      SpreadParts([o EXCEPT !.endForm = TRUE], Without(W, q), q, Loc(W, q), q.spread[i], Uof(q, q.spread[i])).okd[d]
 EndSpreadBad(o, W, Uof(_, _)) ==
     UNION {{<<PKey(p), i>> : i \in {j \in DnsIdx(p) : ~EndSpreadOK(o, W, p, p.spread[j], Uof)}} : p \in PlacedPods(W)}
 
